@@ -99,16 +99,29 @@ RbChangeIds(chg, M, FM, V0, V1) ==
         \/ \E a, b \in V0 : a # b /\ chg[a] = chg[c] /\ chg[b] = chg[c]
         \/ \E k \in DOMAIN M : M[k].k = "dv" /\ chg[k] = chg[c]
 
-(* the finding of DESIGN section 7: working copy at a commit that was       *)
-(* Rewritten and whose rewrite chain ends in an Abandoned commit            *)
+(* the finding of DESIGN section 7: working copy at a commit whose own      *)
+(* record is Rewritten (or Divergent) and whose rewrite chain ends in an    *)
+(* Abandoned commit                                                         *)
 WcRewrittenThenAbandoned(FM, k0) ==
-  k0 # 0 /\ k0 \in DOMAIN FM /\ FM[k0].k = "rw" /\ "ab" \in KindsOf(FM, k0)
+  k0 # 0 /\ k0 \in DOMAIN FM /\ FM[k0].k # "ab" /\ "ab" \in KindsOf(FM, k0)
+(* second finding: the input records contain a chain k -> .. -> p of length  *)
+(* >= 2 whose end p had itself to be rebased by the call; the ordering of   *)
+(* rebase_descendants follows only direct replacements, so a descendant of  *)
+(* k can be rebased onto p before p is, and stays on the old p              *)
+OrphanOnTransitiveReplacement(par, M, rb, V1) ==
+  LET FM == FullMap(M, rb) IN
+  \A c \in V1 \ DOMAIN FM : \A p \in ParentSet(par, c) :
+     (p \in DOMAIN FM /\ FM[p].k # "dv") =>
+        /\ p \in DOMAIN rb
+        /\ \E k \in DOMAIN M : p \in ResolveSet(M, k) /\ p \notin ToSet(M[k].n)
 
 RebaseVerdict(par, chg, dsc, emp, v0, M, rb, opts, v1, nOld) ==
   LET FM == FullMap(M, rb)
       V0 == Visible(par, v0.heads)
       V1 == Visible(par, v1.heads)
-  IN IF ~RbNoOrphan(par, FM, V1) THEN "RebaseOK:orphan"
+  IN IF ~RbNoOrphan(par, FM, V1)
+        THEN (IF OrphanOnTransitiveReplacement(par, M, rb, V1)
+              THEN "RebaseOK:orphan-on-transitive-replacement" ELSE "RebaseOK:orphan")
      ELSE IF ~RbOldHidden(par, FM, V1) THEN "RebaseOK:old-commit-visible"
      ELSE IF ~RbMetadata(chg, dsc, rb, opts, nOld, V1) THEN "RebaseOK:rebased-metadata"
      ELSE IF ~RbNoLoss(M, rb, V0, V1) THEN "RebaseOK:commit-lost"
@@ -144,57 +157,75 @@ DiscardableLeft(dsc, emp, va, vo, vm, c) ==
   /\ Discardable(dsc, emp, c)
   /\ c \notin BmAdds(vm) /\ c \notin WcSet(vm)
   /\ c \in WcSet(va) \cup WcSet(vo)
-RECURSIVE ImgSet(_, _, _, _, _)
-ImgSet(par, chg, preds, VM, c) ==
-  IF c \in VM THEN {c}
-  ELSE LET r == RewrittenInto(chg, preds, VM, c) IN
-       IF r # {} THEN r ELSE UNION {ImgSet(par, chg, preds, VM, p) : p \in ParentSet(par, c)}
-MgNoLoss(chg, dsc, emp, preds, va, vo, vm, VB, VA, VO, VM) ==
-  \A c \in (VA \cup VO) \ VB :
-     \/ c \in VM
-     \/ RewrittenInto(chg, preds, VM, c) # {}
-     \/ DiscardableLeft(dsc, emp, va, vo, vm, c)
-MgHidden(chg, VB, VA, VO, VM) ==
-  \A c \in (VB \ VA) \cup (VB \ VO) :
-     \/ c \notin VM
-     \/ Cardinality({d \in VA \ VB : chg[d] = chg[c]}) >= 2
-     \/ Cardinality({d \in VO \ VB : chg[d] = chg[c]}) >= 2
-MgBookmarkOK(par, chg, preds, VM, tb, ta, to, tm) ==
-  LET Stable(t) == AddIds(t) \subseteq VM
-      Img(t) == UNION {ImgSet(par, chg, preds, VM, a) : a \in AddIds(t)}
+(* G = [par, chg, dsc, emp, preds, va, vo, vm, VB, VA, VO, VM, nOld]       *)
+Removed(G) == (G.VB \ G.VA) \cup (G.VB \ G.VO)
+Kept(G) == G.VM \ Removed(G)
+(* where a reference to c ends up: c itself if neither side removed it;     *)
+(* else the commits with c's change that the removing side added (this is   *)
+(* how record_rewrites matches) or, for a commit a side created, the copy   *)
+(* the reconciliation rebased it into; else (abandoned) where its parents   *)
+(* end up                                                                   *)
+Successors(G, c) ==
+  LET fromA == IF c \in G.VB \ G.VA THEN {d \in G.VA \ G.VB : G.chg[d] = G.chg[c]} ELSE {}
+      fromO == IF c \in G.VB \ G.VO THEN {d \in G.VO \ G.VB : G.chg[d] = G.chg[c]} ELSE {}
+      fromM == IF c \notin G.VB THEN {d \in G.VM : d > G.nOld /\ G.chg[d] = G.chg[c]} ELSE {}
+  IN (fromA \cup fromO \cup fromM) \ {c}
+RECURSIVE ImgSet(_, _)
+ImgSet(G, c) ==
+  IF c \in Kept(G) THEN {c}
+  ELSE IF Successors(G, c) # {} THEN UNION {ImgSet(G, d) : d \in Successors(G, c)}
+  ELSE UNION {ImgSet(G, p) : p \in ParentSet(G.par, c)}
+MgNoLoss(G) ==
+  \A c \in (G.VA \cup G.VO) \ G.VB :
+     \/ c \in G.VM
+     \/ RewrittenInto(G.chg, G.preds, G.VM, c) # {}
+     \/ DiscardableLeft(G.dsc, G.emp, G.va, G.vo, G.vm, c)
+MgHidden(G) ==
+  (* a commit one side rewrote/abandoned stays visible only below a commit  *)
+  (* that side rewrote divergently (its descendants are left in place)      *)
+  LET kept == {c \in Removed(G) \cap G.VM :
+                 \/ Cardinality({d \in G.VA \ G.VB : G.chg[d] = G.chg[c]}) >= 2
+                 \/ Cardinality({d \in G.VO \ G.VB : G.chg[d] = G.chg[c]}) >= 2}
+  IN (Removed(G) \cap G.VM) \subseteq AncOf(G.par, kept)
+MgBookmarkOK(G, tb, ta, to, tm) ==
+  LET Stable(t) == AddIds(t) \subseteq Kept(G)
+      StableAll(t) == Ids(t) \subseteq Kept(G)
+      Img(t) == UNION {ImgSet(G, a) : a \in AddIds(t)}
+      ImgAll(t) == UNION {ImgSet(G, a) : a \in Ids(t)}
       Pushed(t) ==     \* t pushed through the other side's rewrites
-        /\ AddIds(tm) \subseteq Img(t)
+        /\ AddIds(tm) \subseteq ImgAll(t)
         /\ (AddIds(t) # {} => AddIds(tm) # {})
         /\ (Normal(t) /\ Cardinality(Img(t)) = 1) => tm = <<CHOOSE x \in Img(t) : TRUE>>
   IN IF ta = tb /\ to = tb THEN (IF Stable(tb) THEN tm = tb ELSE Pushed(tb))
      ELSE IF to = tb THEN (IF Stable(ta) THEN tm = ta ELSE Pushed(ta))
      ELSE IF ta = tb THEN (IF Stable(to) THEN tm = to ELSE Pushed(to))
      ELSE IF ta = to THEN (IF Stable(ta) THEN tm = ta ELSE Pushed(ta))
-     ELSE IF Stable(ta) /\ Stable(to) THEN RefMergeOK(par, ta, tb, to, tm)
-     ELSE /\ AddIds(tm) \subseteq Img(ta) \cup Img(to)
+     ELSE IF StableAll(ta) /\ StableAll(to) /\ StableAll(tb) THEN RefMergeOK(G.par, ta, tb, to, tm)
+     ELSE /\ AddIds(tm) \subseteq ImgAll(ta) \cup ImgAll(tb) \cup ImgAll(to)
           /\ (AddIds(ta) # {} /\ AddIds(to) # {}) => AddIds(tm) # {}
-MgWcOK(par, chg, dsc, emp, preds, va, vo, vm, VB, VA, VO, VM, nOld, wb, wa, wo, wm) ==
+MgWcOK(G, wb, wa, wo, wm) ==
   LET WcImg(c) == IF c = 0 THEN {0}
-                  ELSE IF c \in VM THEN {c}
-                  ELSE IF RewrittenInto(chg, preds, VM, c) # {} THEN RewrittenInto(chg, preds, VM, c)
-                  ELSE {n \in VM : n > nOld /\ emp[n] /\ dsc[n] = 0}
-      StillThere(c) == \/ c = 0 \/ c \in VM \/ RewrittenInto(chg, preds, VM, c) # {}
-                       \/ DiscardableLeft(dsc, emp, va, vo, vm, c)
-                       \/ c \in (VB \ VA) \cup (VB \ VO)
+                  ELSE IF c \in Kept(G) THEN {c}
+                  ELSE IF Successors(G, c) # {} THEN UNION {ImgSet(G, d) : d \in Successors(G, c)}
+                  ELSE {n \in G.VM : n > G.nOld /\ G.emp[n] /\ G.dsc[n] = 0}
+      StillThere(c) == \/ c = 0 \/ c \in G.VM \/ RewrittenInto(G.chg, G.preds, G.VM, c) # {}
+                       \/ DiscardableLeft(G.dsc, G.emp, G.va, G.vo, G.vm, c)
+                       \/ c \in Removed(G)
   IN IF wo = wb THEN wm \in WcImg(wa)
      ELSE IF wa = wb THEN wm \in WcImg(wo)
      ELSE /\ wm \in WcImg(wa) \cup WcImg(wo)
           /\ StillThere(wa) /\ StillThere(wo)
 
 MergeVerdict(par, chg, dsc, emp, preds, vb, va, vo, vm, nOld) ==
-  LET VB == Visible(par, vb.heads)  VA == Visible(par, va.heads)
-      VO == Visible(par, vo.heads)  VM == Visible(par, vm.heads)
-  IN IF ~MgNoLoss(chg, dsc, emp, preds, va, vo, vm, VB, VA, VO, VM) THEN "MergeOK:commit-lost"
-     ELSE IF ~MgHidden(chg, VB, VA, VO, VM) THEN "MergeOK:removed-commit-visible"
-     ELSE IF \E i \in DOMAIN vb.bm : ~MgBookmarkOK(par, chg, preds, VM, vb.bm[i], va.bm[i], vo.bm[i], vm.bm[i])
+  LET G == [par |-> par, chg |-> chg, dsc |-> dsc, emp |-> emp, preds |-> preds,
+            va |-> va, vo |-> vo, vm |-> vm, nOld |-> nOld,
+            VB |-> Visible(par, vb.heads), VA |-> Visible(par, va.heads),
+            VO |-> Visible(par, vo.heads), VM |-> Visible(par, vm.heads)]
+  IN IF ~MgNoLoss(G) THEN "MergeOK:commit-lost"
+     ELSE IF ~MgHidden(G) THEN "MergeOK:removed-commit-visible"
+     ELSE IF \E i \in DOMAIN vb.bm : ~MgBookmarkOK(G, vb.bm[i], va.bm[i], vo.bm[i], vm.bm[i])
           THEN "MergeOK:bookmark-change-lost"
-     ELSE IF \E w \in DOMAIN vb.wc : ~MgWcOK(par, chg, dsc, emp, preds, va, vo, vm, VB, VA, VO, VM, nOld,
-                                              vb.wc[w], va.wc[w], vo.wc[w], vm.wc[w])
+     ELSE IF \E w \in DOMAIN vb.wc : ~MgWcOK(G, vb.wc[w], va.wc[w], vo.wc[w], vm.wc[w])
           THEN "MergeOK:wc-change-lost"
      ELSE "ok"
 
@@ -209,4 +240,422 @@ WalkVerdict(preds, start, out, failed) ==
             i < j /\ out[j] \in DOMAIN preds /\ out[i] \in ToSet(preds[out[j]])
        THEN "WalkOK:predecessor-before-successor"
   ELSE "ok"
+
+-----------------------------------------------------------------------------
+(*                 Part 2 - REFERENCE TRANSCRIPTIONS                        *)
+
+(* View::normalize_heads *)
+NormalizeHeads(par, hs) ==
+  IF hs = {} THEN {Root}
+  ELSE IF Cardinality(hs) = 1 THEN hs
+  ELSE Heads(par, hs \ {Root})
+
+(* MutableRepo::rewritten_ids_with: depth-first replacement, first          *)
+(* occurrence wins.  expandDv = FALSE is new_parents() (Divergent records   *)
+(* are not followed), TRUE is resolve_rewrite_mapping_with(|_| true).       *)
+RECURSIVE RewrittenIds(_, _, _, _, _)
+RewrittenIds(M, expandDv, todo, acc, seen) ==
+  IF todo = <<>> THEN acc
+  ELSE LET id == Head(todo)  rest == Tail(todo) IN
+       IF id \in seen THEN RewrittenIds(M, expandDv, rest, acc, seen)
+       ELSE IF id \in DOMAIN M /\ (expandDv \/ M[id].k # "dv")
+            THEN RewrittenIds(M, expandDv, M[id].n \o rest, acc, seen \cup {id})
+            ELSE RewrittenIds(M, expandDv, rest, Append(acc, id), seen \cup {id})
+NewParents(M, ids) == RewrittenIds(M, FALSE, ids, <<>>, {})
+ResolveAll(M, id) == RewrittenIds(M, TRUE, <<id>>, <<>>, {})
+
+(* itertools::intersperse(news, old): <<n1, old, n2, old, n3>> *)
+Intersperse(news, old) ==
+  [i \in 1..(2 * Len(news) - 1) |-> IF Odd(i) THEN news[(i + 1) \div 2] ELSE old]
+
+(* the repository state a transaction works on *)
+(* R = [par, chg, dsc, emp, view, M, preds]                                 *)
+FreshChg(R) == Max(ToSet(R.chg)) + 1
+FreshDsc(R) == Max(ToSet(R.dsc)) + 1
+AddCommit(R, parents, c, d, e, pr) ==
+  LET n == Len(R.par) + 1 IN
+  [R EXCEPT !.par = Append(R.par, parents), !.chg = Append(R.chg, c),
+            !.dsc = Append(R.dsc, d), !.emp = Append(R.emp, e),
+            !.preds = (n :> pr) @@ R.preds,
+            !.view.heads = R.view.heads \cup {n}]
+
+(* maybe_abandon_wc_commit(w): the commit the workspace leaves is recorded  *)
+(* abandoned if it is discardable, a head, and nothing else refers to it    *)
+MaybeAbandonWc(R, w) ==
+  LET x == R.view.wc[w]
+      hs == NormalizeHeads(R.par, R.view.heads)
+      others == {R.view.wc[u] : u \in DOMAIN R.view.wc \ {w}} \cup BmAdds(R.view)
+  IN IF x = 0 THEN R
+     ELSE LET R1 == [R EXCEPT !.view.heads = hs] IN
+          IF Discardable(R.dsc, R.emp, x) /\ x \notin others /\ x \in hs
+          THEN [R1 EXCEPT !.M = (x :> [k |-> "ab", n |-> R.par[x]]) @@ R.M]
+          ELSE R1
+(* MutableRepo::edit; editing the root is an error (panics inside           *)
+(* rebase_descendants): the model records it in the field `panic`           *)
+EditWc(R, w, c) ==
+  LET R1 == MaybeAbandonWc(R, w) IN
+  [R1 EXCEPT !.view.heads = R1.view.heads \cup {c}, !.view.wc[w] = c]
+
+(* --- rebase_descendants_with_options ------------------------------------ *)
+RbToVisit(R) ==
+  (DescOf(R.par, DOMAIN R.M) \cap AncOf(R.par, R.view.heads)) \ DOMAIN R.M
+(* order_commits_for_rebase: parents first, and the DIRECT replacements of  *)
+(* a rewritten parent first                                                 *)
+RbDeps(R0, tv, c) ==
+  (ParentSet(R0.par, c) \cap tv)
+  \cup (UNION {ToSet(R0.M[p].n) : p \in ParentSet(R0.par, c) \cap DOMAIN R0.M} \cap tv)
+(* one descendant: rebase_commit_with_options *)
+RbStep(S, c, empty) ==
+  LET R == S.R  np == NewParents(R.M, R.par[c]) IN
+  IF np = R.par[c] THEN S
+  ELSE IF empty = "all" /\ R.emp[c] /\ Len(np) = 1
+       THEN [S EXCEPT !.R.M = (c :> [k |-> "ab", n |-> np]) @@ R.M,
+                      !.rb = (c :> [k |-> "ab", n |-> np]) @@ S.rb]
+       ELSE LET n == Len(R.par) + 1
+                R1 == AddCommit(R, np, R.chg[c], R.dsc[c], R.emp[c], <<c>>)
+            IN [S EXCEPT !.R = [R1 EXCEPT !.M = (c :> [k |-> "rw", n |-> <<n>>]) @@ R.M],
+                         !.rb = (c :> [k |-> "rw", n |-> <<n>>]) @@ S.rb]
+RECURSIVE RbLoop(_, _, _, _, _)
+RbLoop(S, R0, tv, remaining, empty) ==
+  IF remaining = {} THEN S
+  ELSE LET ready == {c \in remaining : RbDeps(R0, tv, c) \cap remaining = {}}
+           c == IF ready # {} THEN Min(ready) ELSE Min(remaining)
+       IN RbLoop(RbStep(S, c, empty), R0, tv, remaining \ {c}, empty)
+
+(* update_local_bookmarks: one merge per (bookmark, rewritten add) *)
+RbChangedBm(R) ==      \* <<bookmark, old id>> in name order, then term order
+  LET RECURSIVE Terms(_, _)
+      Terms(i, j) == IF i > Len(R.view.bm) THEN <<>>
+                     ELSE IF j > Len(R.view.bm[i]) THEN Terms(i + 1, 1)
+                     ELSE (IF Odd(j) /\ R.view.bm[i][j] \in DOMAIN R.M
+                           THEN <<<<i, R.view.bm[i][j]>>>> ELSE <<>>) \o Terms(i, j + 2)
+  IN Terms(1, 1)
+RECURSIVE RbBmLoop(_, _, _, _)
+RbBmLoop(R, Mfix, todo, del) ==
+  IF todo = <<>> THEN R
+  ELSE LET i == todo[1][1]  old == todo[1][2]
+           newT == IF del /\ Mfix[old].k = "ab" THEN <<Absent>> ELSE Intersperse(ResolveAll(Mfix, old), old)
+           t == MergeRefTargets(R.par, R.view.bm[i], <<old>>, newT)
+       IN RbBmLoop([R EXCEPT !.view.bm[i] = t, !.view.heads = R.view.heads \cup AddIds(t)],
+                   Mfix, Tail(todo), del)
+(* update_wc_commits *)
+RECURSIVE RbWcLoop(_, _, _, _)
+RbWcLoop(S, Mfix, todo, recreated) ==     \* todo: <<w, old>>; recreated: old -> fresh commit
+  IF todo = <<>> THEN S
+  ELSE LET w == todo[1][1]  old == todo[1][2]  R == S.R
+           abandonedOld == R.M[old].k = "ab"
+           news == ResolveAll(Mfix, old)
+       IN IF ~abandonedOld THEN
+               IF news[1] = Root THEN [S EXCEPT !.panic = TRUE]
+               ELSE RbWcLoop([S EXCEPT !.R = EditWc(R, w, news[1])], Mfix, Tail(todo), recreated)
+          ELSE IF old \in DOMAIN recreated THEN
+               RbWcLoop([S EXCEPT !.R = EditWc(R, w, recreated[old])], Mfix, Tail(todo), recreated)
+          ELSE LET n == Len(R.par) + 1
+                   R1 == AddCommit(R, news, FreshChg(R), 0, TRUE, <<>>)
+               IN RbWcLoop([S EXCEPT !.R = EditWc(R1, w, n)], Mfix, Tail(todo), (old :> n) @@ recreated)
+(* update_heads *)
+RbHeads(R) ==
+  LET old == DOMAIN R.M \cap AncOf(R.par, R.view.heads)
+      toAdd == UNION {ParentSet(R.par, c) : c \in old} \ old
+  IN [R EXCEPT !.view.heads = NormalizeHeads(R.par, (R.view.heads \ DOMAIN R.M) \cup toAdd)]
+
+(* the whole call; result [R, rb, panic]; R.M is cleared *)
+RebaseDescendantsRef(R0, empty, del) ==
+  LET tv == RbToVisit(R0)
+      S1 == RbLoop([R |-> R0, rb |-> <<>>, panic |-> FALSE], R0, tv, tv, empty)
+      Mfix == S1.R.M
+      R2 == RbBmLoop(S1.R, Mfix, RbChangedBm(S1.R), del)
+      wcs == LET RECURSIVE W(_)
+                 W(w) == IF w > Len(R2.view.wc) THEN <<>>
+                         ELSE (IF R2.view.wc[w] \in DOMAIN Mfix THEN <<<<w, R2.view.wc[w]>>>> ELSE <<>>) \o W(w + 1)
+             IN W(1)
+      S3 == RbWcLoop([S1 EXCEPT !.R = R2], Mfix, wcs, <<>>)
+      R4 == RbHeads(S3.R)
+  IN [S3 EXCEPT !.R = [R4 EXCEPT !.M = <<>>]]
+
+(* --- MutableRepo::merge / merge_view ------------------------------------ *)
+MergeWc(self, base, other) ==
+  IF self = other THEN self ELSE IF self = base THEN other ELSE IF other = base THEN self
+  ELSE IF self = 0 \/ other = 0 THEN 0 ELSE self
+(* record_rewrites(old_heads, new_heads): match removed and added commits   *)
+(* by change id                                                             *)
+RECURSIVE DescSeq(_)
+DescSeq(S) == IF S = {} THEN <<>> ELSE LET m == Max(S) IN <<m>> \o DescSeq(S \ {m})
+RecordRewrites(R, oldH, newH) ==
+  LET removed == AncOf(R.par, oldH) \ AncOf(R.par, newH)
+      added == AncOf(R.par, newH) \ AncOf(R.par, oldH)
+      News(o) == {n \in added : R.chg[n] = R.chg[o]}
+      Rec(o) == IF News(o) = {} THEN [k |-> "ab", n |-> R.par[o]]
+                ELSE IF Cardinality(News(o)) = 1 THEN [k |-> "rw", n |-> DescSeq(News(o))]
+                ELSE [k |-> "dv", n |-> DescSeq(News(o))]
+  IN [R EXCEPT !.M = [o \in removed |-> Rec(o)] @@ R.M]
+RECURSIVE MergeBmLoop(_, _, _, _)
+MergeBmLoop(R, base, other, i) ==
+  IF i > Len(R.view.bm) THEN R
+  ELSE IF base.bm[i] = other.bm[i] THEN MergeBmLoop(R, base, other, i + 1)
+  ELSE LET t == MergeRefTargets(R.par, R.view.bm[i], base.bm[i], other.bm[i]) IN
+       MergeBmLoop([R EXCEPT !.view.bm[i] = t, !.view.heads = R.view.heads \cup AddIds(t)], base, other, i + 1)
+MergeViewRef(R, base, other) ==
+  LET ownH == NormalizeHeads(R.par, R.view.heads)
+      R1 == [R EXCEPT !.view.heads = ownH,
+                      !.view.wc = [w \in DOMAIN R.view.wc |->
+                                     IF base.wc[w] = other.wc[w] THEN R.view.wc[w]
+                                     ELSE MergeWc(R.view.wc[w], base.wc[w], other.wc[w])]]
+      R2 == RecordRewrites(RecordRewrites(R1, base.heads, ownH), base.heads, other.heads)
+      R3 == [R2 EXCEPT !.view.heads = R2.view.heads \cup (other.heads \ base.heads)]
+  IN MergeBmLoop(R3, base, other, 1)
+
+(* --- walk_predecessors ---------------------------------------------------- *)
+(* ops visited newest first (op ids are topological); in each op the        *)
+(* commits to visit that the op has a record for are replaced by their      *)
+(* predecessors and emitted successors-first                                *)
+RECURSIVE WalkOp(_, _, _, _)
+WalkOp(opPreds, toVisit, i, emitted) ==      \* visit_op: returns [tv, emit]
+  IF i > Len(toVisit) THEN [tv |-> toVisit, emit |-> emitted]
+  ELSE LET c == toVisit[i] IN
+       IF c \in DOMAIN opPreds THEN
+            IF c \in ToSet(emitted)
+            THEN WalkOp(opPreds, SubSeq(toVisit, 1, i - 1) \o SubSeq(toVisit, i + 1, Len(toVisit)), i, emitted)
+            ELSE WalkOp(opPreds, SubSeq(toVisit, 1, i - 1) \o opPreds[c] \o SubSeq(toVisit, i + 1, Len(toVisit)),
+                        i, Append(emitted, c))
+       ELSE WalkOp(opPreds, toVisit, i + 1, emitted)
+(* emitted commits of one op in reverse topological order of its records    *)
+RECURSIVE TopoEmit(_, _)
+TopoEmit(opPreds, S) ==
+  IF S = {} THEN <<>>
+  ELSE LET tops == {c \in S : ~\E d \in S : d # c /\ c \in PredClosure(opPreds, {d})}
+           c == Min(tops)
+       IN <<c>> \o TopoEmit(opPreds, S \ {c})
+RECURSIVE WalkRef(_, _, _)
+WalkRef(opsPreds, opOrder, toVisit) ==       \* opOrder: ops newest first
+  IF toVisit = <<>> THEN <<>>
+  ELSE IF opOrder = <<>> THEN toVisit
+  ELSE LET r == WalkOp(opsPreds[opOrder[1]], toVisit, 1, <<>>) IN
+       TopoEmit(opsPreds[opOrder[1]], ToSet(r.emit)) \o WalkRef(opsPreds, Tail(opOrder), r.tv)
+
+-----------------------------------------------------------------------------
+(*                      Part 3 - STATE MACHINE                              *)
+(* One action per public mutation of MutableRepo / Transaction / RepoLoader.*)
+(* A transaction may start from ANY operation, which is how concurrent      *)
+(* operations arise (jj-lib transactions are independent in-memory objects; *)
+(* only the order of their commits matters).                                *)
+CONSTANTS MaxCommits, MaxOps, MaxActs,
+          EmptyPolicies,      \* subset of {"keep", "all"}
+          AllowFinding,       \* FALSE: stay off the two known C11 findings' shapes
+          Bug                 \* "none", or a seeded design bug (negative configs)
+
+VARIABLES par, chg, dsc, emp,     \* all commits ever written (sequences indexed by commit)
+          ops,                    \* operations: [parents, view, preds]
+          opHeads,                \* published operation heads
+          tx,                     \* the transaction in progress
+          aux                     \* what the last action did (for the action-level contracts)
+vars == <<par, chg, dsc, emp, ops, opHeads, tx, aux>>
+
+RootView == [heads |-> {Root}, bm |-> <<<<Absent>>, <<Absent>>>>, wc |-> <<0, 0>>]
+NoTx == [active |-> FALSE, view |-> RootView, M |-> <<>>, preds |-> <<>>, parents |-> <<>>,
+         acts |-> 0, created |-> {}, pending |-> {}]
+NoAux == [k |-> "none"]
+
+Init ==
+  /\ par = <<<<>>>> /\ chg = <<0>> /\ dsc = <<0>> /\ emp = <<TRUE>>
+  /\ ops = <<[parents |-> <<>>, view |-> RootView, preds |-> <<>>]>>
+  /\ opHeads = {1} /\ tx = NoTx /\ aux = NoAux
+
+CurR == [par |-> par, chg |-> chg, dsc |-> dsc, emp |-> emp,
+         view |-> tx.view, M |-> tx.M, preds |-> tx.preds]
+(* write a repository state back; created/pending bookkeeping for the contracts *)
+Put(R, newPending, a) ==
+  /\ par' = R.par /\ chg' = R.chg /\ dsc' = R.dsc /\ emp' = R.emp
+  /\ tx' = [tx EXCEPT !.view = R.view, !.M = R.M, !.preds = R.preds, !.acts = @ + 1,
+                      !.created = @ \cup ((Len(par) + 1)..Len(R.par)),
+                      !.pending = @ \cup newPending]
+  /\ aux' = a
+  /\ UNCHANGED <<ops, opHeads>>
+
+Vis == AncOf(par, tx.view.heads)
+CanAct == tx.active /\ tx.acts < MaxActs
+Room(k) == Len(par) + k <= MaxCommits
+(* commits that will descend from k once the pending records are applied    *)
+RECURSIVE FutureDesc(_)
+FutureDesc(S) ==
+  LET next == S \cup {c \in 1..Len(par) : ParentSet(par, c) \cap S # {}}
+                \cup {k \in DOMAIN tx.M : ToSet(tx.M[k].n) \cap S # {}}
+  IN IF next = S THEN S ELSE FutureDesc(next)
+
+StartTx(o) ==
+  /\ ~tx.active /\ Len(ops) < MaxOps /\ o \in 1..Len(ops)
+  /\ tx' = [NoTx EXCEPT !.active = TRUE, !.view = ops[o].view, !.parents = <<o>>]
+  /\ aux' = NoAux
+  /\ UNCHANGED <<par, chg, dsc, emp, ops, opHeads>>
+
+(* new_commit(parents, tree).write(): e = empty tree and no description *)
+NewCommit(ps, e) ==
+  /\ CanAct /\ Room(1)
+  /\ Put(AddCommit(CurR, ps, FreshChg(CurR), IF e THEN 0 ELSE FreshDsc(CurR), e, <<>>), {}, NoAux)
+NewCommitArgs ==
+  {<<p>> : p \in Vis} \cup
+  {pq \in {h \in NormalizeHeads(par, tx.view.heads) : h # Root}
+           \X {h \in NormalizeHeads(par, tx.view.heads) : h # Root} : pq[1] < pq[2]}
+
+(* rewrite_commit(x).set_description(fresh)[.set_parents(np)].write() *)
+RewriteCommit(x, np) ==
+  /\ CanAct /\ Room(1)
+  /\ x \in Vis \ {Root} /\ x \notin DOMAIN tx.M
+  /\ LET n == Len(par) + 1
+         R1 == AddCommit(CurR, np, chg[x], FreshDsc(CurR), emp[x],
+                         IF Bug = "nopred" THEN <<>> ELSE <<x>>)
+     IN Put([R1 EXCEPT !.M = (x :> [k |-> "rw", n |-> <<n>>]) @@ R1.M], {<<x, n>>}, NoAux)
+(* new parents: visible, not a (future) descendant, no pending record, and *)
+(* not below another commit of a change that moves along (the model's      *)
+(* trees are per-change unique files: a copy rebased onto its original     *)
+(* would become empty, which the emp flags do not track)                   *)
+RewriteParents(x) ==
+  {par[x]} \cup
+  {<<p>> : p \in {q \in (Vis \ FutureDesc({x})) \ DOMAIN tx.M :
+                    \A d \in FutureDesc({x}), a \in AncOf(par, {q}) : a = Root \/ chg[a] # chg[d]}}
+
+(* record_abandoned_commit(x) *)
+Abandon(x) ==
+  /\ CanAct
+  /\ x \in Vis \ {Root} /\ x \notin DOMAIN tx.M
+  /\ Put([CurR EXCEPT !.M = (x :> [k |-> "ab", n |-> par[x]]) @@ tx.M], {}, NoAux)
+
+(* two rewrite_commit(x) + set_divergent_rewrite(x, [n, n+1]) *)
+Divergent(x) ==
+  /\ CanAct /\ Room(2)
+  /\ x \in Vis \ {Root} /\ x \notin DOMAIN tx.M
+  /\ LET n == Len(par) + 1
+         R1 == AddCommit(CurR, par[x], chg[x], FreshDsc(CurR), emp[x], <<x>>)
+         R2 == AddCommit(R1, par[x], chg[x], FreshDsc(R1), emp[x], <<x>>)
+     IN Put([R2 EXCEPT !.M = (x :> [k |-> "dv", n |-> <<n, n + 1>>]) @@ R2.M], {<<x, n>>, <<x, n + 1>>}, NoAux)
+
+(* set_local_bookmark_target(b_i, normal(c) | absent) *)
+SetBookmark(i, t) ==
+  /\ CanAct /\ t # tx.view.bm[i]
+  /\ Put([CurR EXCEPT !.view.bm[i] = t,
+                      !.view.heads = IF Bug = "bmhidden" THEN @ ELSE @ \cup AddIds(t)], {}, NoAux)
+BookmarkArgs == {<<Absent>>} \cup {<<c>> : c \in Vis \ {Root}}
+
+WcFree(w) == tx.view.wc[w] \notin DOMAIN tx.M     \* see the domain note in notes/repo.md
+Edit(w, c) ==
+  /\ CanAct /\ WcFree(w)
+  /\ c \in Vis \ {Root} /\ c \notin DOMAIN tx.M /\ c # tx.view.wc[w]
+  /\ Put(EditWc(CurR, w, c), {}, NoAux)
+CheckOut(w, c) ==
+  /\ CanAct /\ Room(1) /\ WcFree(w)
+  /\ c \in Vis /\ c \notin DOMAIN tx.M
+  /\ LET n == Len(par) + 1 IN
+     Put(EditWc(AddCommit(CurR, <<c>>, FreshChg(CurR), 0, TRUE, <<>>), w, n), {}, NoAux)
+RemoveWorkspace(w) ==
+  /\ CanAct /\ WcFree(w) /\ tx.view.wc[w] # 0
+  /\ LET R1 == MaybeAbandonWc(CurR, w) IN Put([R1 EXCEPT !.view.wc[w] = 0], {}, NoAux)
+
+(* the two known findings' shapes (DESIGN 7 and notes/repo.md) *)
+FindingShape(M0, rb, v0) ==
+  \/ \E w \in DOMAIN v0.wc : WcRewrittenThenAbandoned(FullMap(M0, rb), v0.wc[w])
+  \/ \E k \in DOMAIN M0 : \E p \in DOMAIN rb : p \in ResolveSet(M0, k) /\ p \notin ToSet(M0[k].n)
+
+RebaseDescendants(empty, del) ==
+  /\ tx.active /\ tx.M # <<>> /\ empty \in EmptyPolicies
+  /\ LET R0 == CurR
+         S == RebaseDescendantsRef(R0, empty, del)
+         R1 == IF Bug = "nobm" THEN [S.R EXCEPT !.view.bm = R0.view.bm] ELSE S.R
+         newp == {<<c, S.rb[c].n[1]>> : c \in {d \in DOMAIN S.rb : S.rb[d].k = "rw"}}
+     IN /\ Len(R1.par) <= MaxCommits
+        /\ AllowFinding \/ ~FindingShape(R0.M, S.rb, R0.view)
+        /\ IF S.panic
+           THEN /\ aux' = [k |-> "panic", call |-> "rebase"] /\ tx' = NoTx
+                /\ UNCHANGED <<par, chg, dsc, emp, ops, opHeads>>
+           ELSE Put(R1, newp, [k |-> "rebase", v0 |-> R0.view, M |-> R0.M, rb |-> S.rb,
+                               opts |-> [empty |-> empty, del |-> del], v1 |-> R1.view,
+                               nOld |-> Len(R0.par)])
+
+(* tx.repo_mut().set_view(operation o's view): jj op restore *)
+Restore(o) ==
+  /\ tx.active /\ tx.acts = 0 /\ o \in 1..Len(ops) /\ ops[o].view # tx.view
+  /\ LET RECURSIVE A(_)
+         A(S) == LET P == UNION {ToSet(ops[x].parents) : x \in S} IN IF P \subseteq S THEN S ELSE A(S \cup P)
+     IN o \in A(ToSet(tx.parents))      \* the restored operation is in the transaction's past
+  /\ tx' = [tx EXCEPT !.view = ops[o].view, !.acts = MaxActs]
+  /\ aux' = NoAux
+  /\ UNCHANGED <<par, chg, dsc, emp, ops, opHeads>>
+
+(* Transaction::commit: requires no pending records; heads are normalized   *)
+Commit ==
+  /\ tx.active /\ tx.M = <<>>
+  /\ LET v == [tx.view EXCEPT !.heads = IF Bug = "nonormalize" THEN @ ELSE NormalizeHeads(par, @)]
+         o == Len(ops) + 1
+     IN /\ ops' = Append(ops, [parents |-> tx.parents, view |-> v, preds |-> tx.preds])
+        /\ opHeads' = (opHeads \ ToSet(tx.parents)) \cup {o}
+        /\ aux' = [k |-> "commit", pending |-> tx.pending, created |-> tx.created]
+  /\ tx' = NoTx
+  /\ UNCHANGED <<par, chg, dsc, emp>>
+
+(* load_at_head with two heads: merge_operations([a, b]) *)
+OpPar == [o \in 1..Len(ops) |-> ops[o].parents]
+MergeHeads(a, b) ==
+  /\ ~tx.active /\ Len(ops) < MaxOps + 1
+  /\ a \in opHeads /\ b \in opHeads /\ a # b
+  /\ LET gca == CommonAncestors(OpPar, {a}, {b}) IN
+     /\ Cardinality(gca) = 1
+     /\ LET base == ops[CHOOSE o \in gca : TRUE].view
+            other == IF Bug = "dropother" THEN [ops[b].view EXCEPT !.bm = base.bm] ELSE ops[b].view
+            R0 == [par |-> par, chg |-> chg, dsc |-> dsc, emp |-> emp,
+                   view |-> ops[a].view, M |-> <<>>, preds |-> <<>>]
+            R1 == MergeViewRef(R0, base, other)
+            S == RebaseDescendantsRef(R1, "keep", FALSE)
+            v == [S.R.view EXCEPT !.heads = NormalizeHeads(S.R.par, @)]
+            o == Len(ops) + 1
+        IN /\ Len(S.R.par) <= MaxCommits
+           /\ AllowFinding \/ ~FindingShape(R1.M, S.rb, R1.view)
+           /\ IF S.panic
+              THEN /\ aux' = [k |-> "panic", call |-> "merge"]
+                   /\ UNCHANGED <<par, chg, dsc, emp, ops, opHeads>>
+              ELSE /\ par' = S.R.par /\ chg' = S.R.chg /\ dsc' = S.R.dsc /\ emp' = S.R.emp
+                   /\ ops' = Append(ops, [parents |-> <<a, b>>, view |-> v, preds |-> S.R.preds])
+                   /\ opHeads' = (opHeads \ {a, b}) \cup {o}
+                   /\ aux' = [k |-> "merge", base |-> CHOOSE x \in gca : TRUE, a |-> a, b |-> b,
+                              nOld |-> Len(par)]
+  /\ tx' = NoTx
+
+Next ==
+  \/ \E o \in 1..Len(ops) : StartTx(o) \/ Restore(o)
+  \/ \E ps \in NewCommitArgs, e \in BOOLEAN : NewCommit(ps, e)
+  \/ \E x \in Vis : \/ \E np \in RewriteParents(x) : RewriteCommit(x, np)
+                    \/ Abandon(x) \/ Divergent(x)
+  \/ \E i \in 1..2 : \E t \in BookmarkArgs : SetBookmark(i, t)
+  \/ \E w \in 1..2 : \/ \E c \in Vis : Edit(w, c) \/ CheckOut(w, c)
+                     \/ RemoveWorkspace(w)
+  \/ \E e \in EmptyPolicies, d \in BOOLEAN : RebaseDescendants(e, d)
+  \/ Commit
+  \/ \E a, b \in opHeads : MergeHeads(a, b)
+Spec == Init /\ [][Next]_vars
+
+(* --- invariants: the contracts of Part 1 on the machine ------------------ *)
+RECURSIVE AncOpsOf(_)
+AncOpsOf(S) == LET P == UNION {ToSet(ops[o].parents) : o \in S} IN
+               IF P \subseteq S THEN S ELSE AncOpsOf(S \cup P)
+RECURSIVE PredsOfOps(_)
+PredsOfOps(S) == IF S = {} THEN <<>> ELSE LET o == Max(S) IN ops[o].preds @@ PredsOfOps(S \ {o})
+LastOp == Len(ops)
+
+InvC10 == \A o \in 1..Len(ops) : ViewOK(par, ops[o].view)
+InvC11 ==
+  /\ aux.k = "rebase" =>
+       RebaseVerdict(par, chg, dsc, emp, aux.v0, aux.M, aux.rb, aux.opts, aux.v1, aux.nOld) = "ok"
+  /\ aux.k = "commit" => PredsVerdict(ops[LastOp].preds, aux.pending, aux.created) = "ok"
+InvC13 ==
+  aux.k = "merge" =>
+    /\ MergeVerdict(par, chg, dsc, emp, PredsOfOps(1..Len(ops)), ops[aux.base].view,
+                    ops[aux.a].view, ops[aux.b].view, ops[LastOp].view, aux.nOld) = "ok"
+    /\ PredsVerdict(ops[LastOp].preds, {},
+                    ((aux.nOld + 1)..Len(par)) \cap Visible(par, ops[LastOp].view.heads)) = "ok"
+InvC46 ==
+  aux.k \in {"commit", "merge"} =>
+    LET anc == AncOpsOf({LastOp})
+        known == DOMAIN PredsOfOps(anc) \cup {Root}
+    IN \A c \in known :
+         WalkVerdict(PredsOfOps(anc), c,
+                     WalkRef([o \in 1..Len(ops) |-> ops[o].preds], DescSeq(anc), <<c>>), FALSE) = "ok"
+InvNoPanic == aux.k # "panic"
 =============================================================================
